@@ -47,8 +47,11 @@ func replay(c *core.Ctx, raw json.RawMessage) error {
 	if err := json.Unmarshal(raw, &cs); err != nil {
 		return err
 	}
-	// scheduling is not ours to repeat exactly: replay the scenario many times
-	for i := 0; i < 300 && len(c.Failures) == 0; i++ {
+	// scheduling is not ours to repeat exactly: replay the scenario many times (the first run also goes to the model)
+	exec(c, cs)
+	c.NoModel = true
+	t0 := time.Now()
+	for i := 0; i < 100000 && len(c.Failures) == 0 && time.Since(t0) < 8*time.Second; i++ {
 		exec(c, cs)
 	}
 	return nil
